@@ -39,7 +39,7 @@ def _bp_case(args):
     rng = random.Random(seed)
     d = Path(tempfile.mkdtemp(prefix="fjv_c16_"))
     try:
-        items = c03.render_items(ast)
+        items = ["start0:"] + c03.render_items(ast)          # a source label at address 0 (in front of the first statement)
         res = c03.assemble_files(["\n".join(items) + "\n"], w, d, "p")
         if not res["ok"]:
             return {"skipped": res["err"][:100]}
@@ -50,8 +50,11 @@ def _bp_case(args):
         reloaded = load_debugging_labels(p2)
         names = list(table)
         queries = []
-        for _ in range(6):
+        at_zero = [n_ for n_, a_ in table.items() if a_ == 0]
+        for qi in range(6):
             exact = rng.sample(names, min(len(names), rng.randint(0, 2))) + (["no.such.label"] if rng.random() < 0.3 else [])
+            if qi == 0:
+                exact += at_zero[:2]                           # address 0 is an address like any other
             cands = ["---", ":start:", "code", "halt", "d", "t", "i", "y", "x", "wflip", "rep", "zzz"]
             cands += [rng.choice(names)[rng.randrange(3):][:rng.randint(1, 6)] for _ in range(3)]
             # substrings are literal text: pieces of real names from anywhere in the name (label names contain . ( ) : -),
